@@ -17,6 +17,8 @@ Driver for property C07: `kitdrv C07` reads one op per line and answers with the
   ptrprefix v=<RV>                             → `ok unchanged` | `ok deref` | `panic <why>` (reflect prefix of decodeString)
   pempriv block=<none|ec|rsa|pkcs8|other> sec1=<0|1> pkcs1=<0|1> p8=<none|rsa|ecdsa|ed25519|ecdh> → `ok` | `err` | `panic`
   hook f=<ty> t=<ty> empty=<0|1> pd=<0|1> pi=<0|1> cast=<0|1> q=<0|1>             → `ok` | `err` | `panic`  (metadata hook chain)
+  normalize v=<Val>   Val ::= s | l[Val,…] | m{Val,…} | a{<0|1>:Val,…}                  → `ok` | `err`   (config.Normalize)
+  dstail tk=<kind> str=<0|1> impl=<0|1> isptr=<0|1> pimpl=<0|1> dok=<0|1> pok=<0|1>     → `ok` | `err` | `panic` (decodeString behind `f.Kind() == String`)
      RV ::= zero | nil:<ptr|iface|map|slice|func|chan> | ptr(RV) | iface(RV) | leaf:<kind>
 -/
 namespace Driver.C07
@@ -74,6 +76,29 @@ def parseRV : Nat → List Char → Option (RV × List Char)
               | _ => none
             | none => none
 
+open Kit.NoPanic.Decode in
+/-- parser of the `Val` notation -/
+partial def parseVal (cs : List Char) : Option (Val × List Char) :=
+  let rec items (cs : List Char) (close : Char) (withFlag : Bool) (acc : List (Bool × Val)) : Option (List (Bool × Val) × List Char) :=
+    match cs with
+    | c :: rest =>
+      if c == close then some (acc.reverse, rest)
+      else
+        let cs' := if c == ',' then rest else cs
+        let (flag, cs'') := if withFlag then
+            (match cs' with | '1' :: ':' :: r => (true, r) | '0' :: ':' :: r => (false, r) | r => (false, r))
+          else (true, cs')
+        match parseVal cs'' with
+        | some (v, r) => items r close withFlag ((flag, v) :: acc)
+        | none => none
+    | [] => none
+  match cs with
+  | 's' :: rest => some (.scalar, rest)
+  | 'l' :: '[' :: rest => (items rest ']' false []).map fun (xs, r) => (.list (xs.map (·.2)), r)
+  | 'm' :: '{' :: rest => (items rest '}' false []).map fun (xs, r) => (.mapStr (xs.map (·.2)), r)
+  | 'a' :: '{' :: rest => (items rest '}' true []).map fun (xs, r) => (.mapAny xs, r)
+  | _ => none
+
 def step (_ : Unit) (line : String) : Unit × String :=
   let l := parseLine line
   let ans : String :=
@@ -128,6 +153,17 @@ def step (_ : Unit) (line : String) : Unit × String :=
         | some "int64" => .int64 | some "float64" => .float64 | some "struct" => .struct | _ => .other
       let b (k : String) : Bool := l.nat? k == some 1
       showOutcome (fun (_ : Decode.Ty) => "") (Decode.hookChain ⟨b "empty", b "pd", b "pi", b "cast", b "q"⟩ (ty (l.get? "f")) (ty (l.get? "t")))
+    | "normalize" =>
+      match (l.get? "v").bind fun v => parseVal v.toList with
+      | some (v, []) => showOutcome (fun (_ : Unit) => "") (Decode.normalize v)
+      | _ => "bad-request"
+    | "dstail" =>
+      let b (k : String) : Bool := l.nat? k == some 1
+      let tk : Decode.Kind := match l.get? "tk" with
+        | some "string" => .string | some "int64" => .int64 | some "float64" => .float64 | some "bool" => .bool
+        | some "ptr" => .ptr | some "slice" => .slice | some "map" => .map | some "struct" => .struct | some "int" => .int | _ => .other
+      showOutcome (fun (_ : Unit) => "") (Decode.decodeString true
+        ⟨tk, .string, .value, .string, b "str", b "impl", b "isptr", b "pimpl", b "dok", b "pok"⟩)
     | "kwwrap" =>
       match l.nat? "n" with
       | some n => showOutcome (fun (k : Nat) => toString k) (KW.wrap n)
